@@ -192,6 +192,8 @@ class UB1:
             c = n.get("callee")
             if c == "strlen":
                 return (0, 2 ** 62)
+            if c in ("rand", "random"):
+                return (0, 2 ** 31 - 1)          # C: rand() returns a value in [0, RAND_MAX]
             return type_range(n.get("t"))
         return type_range(n.get("t"))
 
